@@ -1,6 +1,6 @@
 (* C07 property theorems. This file contains only statements closed by
    [exact lemma] and Print Assumptions. *)
-From V Require Import Common.Base Common.Utf8 C07.LineCol C07.Builder C07.BuilderProofs C07.LineColAux C07.LineColProofs C07.Shift C07.ShiftAux C07.ShiftProofs C07.Vlq C07.SpecMap C07.Mappings C07.VlqProofs C07.MappingsProofs C07.FindProofs C07.JoinProofs C07.SpecBuilder C07.BuilderExact C07.JoinAll C07.JoinAllProofs C07.Pipeline C07.BuilderIn C07.BuilderInProofs.
+From V Require Import Common.Base Common.Utf8 C07.LineCol C07.Builder C07.BuilderProofs C07.LineColAux C07.LineColProofs C07.Shift C07.ShiftAux C07.ShiftProofs C07.Vlq C07.SpecMap C07.Mappings C07.VlqProofs C07.MappingsProofs C07.FindProofs C07.JoinProofs C07.SpecBuilder C07.BuilderExact C07.JoinAll C07.JoinAllProofs C07.Pipeline C07.BuilderIn C07.BuilderInProofs C07.AdvConcat.
 
 (* encodeVLQ/DecodeVLQ round trip, every integer, arbitrary trailing bytes *)
 Theorem vlq_roundtrip : forall v rest, DecodeVLQ (encodeVLQ v ++ rest) = Some (v, rest).
@@ -203,3 +203,32 @@ Theorem builder_composes : forall text ms inames,
     sorted_ops ops 0 /\ end_col ops 0 <= fcol.
 Proof. exact builder_composes_all. Qed.
 Print Assumptions builder_composes.
+
+(* The generated position of builder_mappings_exact is measured portion by
+   portion (the builder scans only the output added since its last scan).
+   Measuring the concatenated output gives the same position whenever the cut
+   is clean: a character boundary of the concatenation (not inside a UTF-8
+   sequence) that does not separate a CR from the LF that follows it. *)
+Theorem generated_position_concat : forall p a b,
+  clean_cut a b -> adv p (a ++ b) = adv (adv p a) b.
+Proof. exact adv_concat_all. Qed.
+Print Assumptions generated_position_concat.
+
+(* ... and the hypothesis is needed: the builder that has scanned "...CR" and
+   then scans "LF..." counts two line breaks where the text has one *)
+Theorem generated_position_dirty_cut_differs :
+  adv (0, 0) ([13] ++ [10]) = (1, 0) /\ adv (adv (0, 0) [13]) [10] = (2, 0).
+Proof. exact (conj eq_refl eq_refl). Qed.
+Print Assumptions generated_position_dirty_cut_differs.
+
+(* Hence, when every place where the builder stops scanning is a clean cut of
+   the output ([clean_run]: the hypothesis about the printers, which record
+   mappings between whole tokens / whole comments; exercised by the cut-probe
+   corpus through api.Transform), the chunk of builder_mappings_exact is the one
+   whose generated positions are  linecol_utf16 (all output printed so far)
+   (its length)  -- the same direct scan that specifies original positions. *)
+Theorem builder_spec_on_concatenated_output : forall text cover evs fin,
+  clean_run sw0 [] evs fin ->
+  builder_spec_cat text cover evs fin = builder_spec text cover evs fin.
+Proof. exact builder_spec_cat_eq. Qed.
+Print Assumptions builder_spec_on_concatenated_output.
